@@ -58,7 +58,7 @@ func FormatCSVValue(builder *strings.Builder, value octosql.Value) {
 	case octosql.TypeIDString:
 		builder.WriteString(value.Str)
 	case octosql.TypeIDTime:
-		builder.WriteString(value.Time.Format(time.RFC3339))
+		builder.WriteString(value.Time.Format(time.RFC3339Nano))
 	case octosql.TypeIDDuration:
 		builder.WriteString(fmt.Sprint(value.Duration))
 	case octosql.TypeIDList, octosql.TypeIDStruct, octosql.TypeIDTuple:
